@@ -96,12 +96,16 @@ def pristine_write(payload):
             apply_input_mutation(scn, pps, m)
         fault = payload.get("fault") or {}
         path = os.path.join(d, "missing" if "nodir" in fault else "", "twin" + FMT[payload["args"]["fmt"]].value)
+        if "devfull" in fault:
+            path = "/dev/full"
         if payload.get("target_is_dir"):
             os.makedirs(path)
         if "ioerr" in fault:
             seams.open_shim.arm(fault["ioerr"])
         w = make_writer(scn, pps, payload["args"])
         do_write(w, path, "ALWAYS", payload["method"], payload["validate"])
+        if "devfull" in fault:
+            return b""
         with open(path, "rb") as f:
             return f.read()
     finally:
@@ -233,6 +237,9 @@ class Run(RunBase):
             rel = os.path.join("missing", rel)
             self.faults["F-nodir"] += 1
         path = self._path(rel)
+        if "devfull" in fault:
+            path = "/dev/full"  # every write to it fails with ENOSPC (also inside lxml's C writer)
+            self.faults["F-diskfull"] += 1
         twin_path = self._path(rel + ".twin")
         mode, method, validate = op["mode"], op["method"], bool(op.get("validate", False))
         ask_answer = None
@@ -338,6 +345,11 @@ class Run(RunBase):
             raise Violation(f"C15/writer-fails-twin-succeeds/{tag}",
                             f"this writer raised {type(exc).__name__}: {exc} although a fresh identical writer "
                             f"writes the file (writes so far by this writer: {rec['writes']})")
+        if "devfull" in fault:
+            # small documents: lxml buffers the output and does not report the failing close - the write is silently
+            # lost for the writer and for its twin alike; nothing to compare
+            self.probe("lost-write-on-full-device-not-reported")
+            return {"result": "ok-nothing-written"}
         if rec["failed"]:
             self.probe("success-after-failed-write")
         if existed:
@@ -440,6 +452,9 @@ def _writer_user(rng, run, name, cfg):
                 op["fault"] = {"nodir": True}
             elif "F-ioerr" in cfg["faults"] and fmt == "pb" and r < 2 * cfg["p_fault"]:
                 op["fault"] = {"ioerr": rng.pick([0, 1, 10, 100, 1000])}
+            elif "F-diskfull" in cfg["faults"] and r < 3 * cfg["p_fault"]:
+                op["fault"] = {"devfull": True}
+                op["mode"] = "ALWAYS"
             yield op
 
 
@@ -519,7 +534,7 @@ class C15(Property):
     ]
 
     def gen_config(self, rng):
-        faults = rng.subset(["F-clock", "F-exists", "F-nodir", "F-ioerr"], 0.6)
+        faults = rng.subset(["F-clock", "F-exists", "F-nodir", "F-ioerr", "F-diskfull"], 0.6)
         return {"steps": rng.randint(6, 18), "n_writers": rng.randint(1, 4), "faults": sorted(faults),
                 "fmt_weights": rng.pick([[1, 1], [3, 1], [1, 0], [1, 3]]),
                 "precisions": sorted(rng.sample(range(1, 13), rng.randint(1, 4))),
